@@ -266,6 +266,28 @@ func readervecMain(args []string) int {
 			}
 		}
 	}
+	// limits above 1 MiB with inputs of about that size (staged reads)
+	{
+		body := []byte("[" + strings.Repeat("1234567,", 200000) + "1]") // 1.6 MB of JSON
+		for _, size := range []int{1 << 20, 1<<20 + 5, len(body)} {
+			data := body[:size]
+			p := filepath.Join(tmp, "huge")
+			os.WriteFile(p, data, 0o600)
+			for _, lim := range []int{1<<20 + 1, 2 << 20, 0} {
+				mimetype.SetLimit(uint32(lim))
+				want := mimetype.Detect(exact(data)).String()
+				got1, err1 := mimetype.DetectReader(bytes.NewReader(data))
+				got2, err2 := mimetype.DetectFile(p)
+				n += 2
+				for i, g := range []*mimetype.MIME{got1, got2} {
+					if e := []error{err1, err2}[i]; e != nil || g.String() != want {
+						rep.violate(Violation{Property: "C05", Kind: "large-limit-reader-differs-from-bytes", Text: fmt.Sprintf("JSON of %d bytes limit %d", size, lim), Limit: int64(lim),
+							Detail: fmt.Sprintf("%s=%s err=%v, Detect=%s", []string{"DetectReader", "DetectFile"}[i], g, e, want), Key: fmt.Sprintf("C05|huge|%d|%d|%d", size, lim, i)})
+					}
+				}
+			}
+		}
+	}
 	// regular files whose stat size says nothing about their content (procfs reports 0): DetectFile and
 	// DetectReader(*os.File) still see the bytes the file delivers
 	for _, p := range []string{"/proc/self/cmdline", "/proc/version", "/proc/self/environ", "/proc/cpuinfo"} {
